@@ -58,6 +58,9 @@ struct Case {
     pos: Pos,
     pos_exists: bool,
     user_pos: Option<&'static str>,
+    /// 0: the only / first definition; 1: placed after a valid definition of the same kind
+    /// (second plugin of the list, later line of unk.def)
+    slot: u8,
 }
 
 fn case_cfg(c: &Case, sh: &Shape) -> Value {
@@ -70,6 +73,9 @@ fn case_cfg(c: &Case, sh: &Shape) -> Value {
             if let Some(u) = c.user_pos {
                 v["userPOS"] = json!(u);
             }
+            if c.slot == 1 {
+                oov.push(json!({"class": format!("{}RegexOovProvider", CLS), "oovPOS": pool[0].to_vec(), "leftId": 0, "rightId": 0, "cost": 100, "regex": "[ⓩ]+", "boundaries": "relaxed"}));
+            }
             oov.push(v);
         }
         Kind::Regex => {
@@ -78,11 +84,20 @@ fn case_cfg(c: &Case, sh: &Shape) -> Value {
             if let Some(u) = c.user_pos {
                 v["userPOS"] = json!(u);
             }
+            if c.slot == 1 {
+                oov.push(env::simple_oov(&pool[0], 0, 0, 15000));
+            }
             oov.push(v);
             oov.push(fallback);
         }
         Kind::MeCab => {
+            if c.slot == 1 {
+                // the questioned line is neither the first nor the last one, and not the first of its category
+                sh.res.write("unk.def", &format!("DEFAULT,0,0,9000,{}\nKANJI,0,0,9000,{}\nKANJI,{},{},{},{}\nNUMERIC,0,0,9000,{}\n",
+                    pool[0].join(","), pool[0].join(","), c.left, c.right, c.cost, c.pos.join(","), pool[0].join(",")));
+            } else {
             sh.res.write("unk.def", &format!("DEFAULT,{},{},{},{}\n", c.left, c.right, c.cost, c.pos.join(",")));
+            }
             let mut v = json!({"class": format!("{}MeCabOovPlugin", CLS), "charDef": "char.def", "unkDef": "unk.def"});
             if let Some(u) = c.user_pos {
                 v["userPOS"] = json!(u);
@@ -136,7 +151,9 @@ fn known_label(c: &Case, m: &Matrix, observed_accept: bool) -> &'static str {
 
 fn boundary_values(m: &Matrix) -> Vec<i64> {
     let (n, k) = (m.nl as i64, m.nr as i64);
-    let mut v = vec![-1, 0, n - 1, n, n + 1, k - 1, k, k + 1, 32767, 32768, 65535, 65536];
+    // incl. values that are valid ids modulo 2^16 / 2^32 and the ends of the 16-bit range
+    let mut v = vec![-1, 0, n - 1, n, n + 1, k - 1, k, k + 1, 32767, 32768, 65535, 65536, 65536 + n - 1, 65536 + k - 1, -65536, -32768, -32769,
+        (1i64 << 32), (1i64 << 32) + n - 1, i64::MAX, i64::MIN + 1];
     v.sort();
     v.dedup();
     v
@@ -170,13 +187,24 @@ pub fn run(ctx: &Ctx, rep: &mut Report) {
     let shapes_thorough: &[(usize, usize)] = &[
         (1, 1), (2, 2), (3, 3), (7, 7), (2, 3), (3, 2), (1, 4), (7, 2), (4, 1), (2, 7), (5, 5), (12, 12), (12, 3), (3, 12), (1, 2), (2, 1),
     ];
-    let shapes = if ctx.quick() { shapes_quick } else { shapes_thorough };
+    let mut shapes: Vec<(usize, usize)> = (if ctx.quick() { shapes_quick } else { shapes_thorough }).to_vec();
+    {
+        // plus seeded random shapes (more of them in the thorough tier; the time budget bounds the run)
+        let mut r = Rng::derive(ctx.seed, 0xC20F, 0);
+        for _ in 0..ctx.n(8, 400) {
+            shapes.push((1 + r.below(40), 1 + r.below(40)));
+        }
+    }
     let pool = dictgen::pos_pool();
     let missing_pos = pos(["存在", "しない", "品詞", "*", "*", "*"]);
     // work items = (shape, kind) pairs, distributed over the shards
     let kinds = [Kind::Simple, Kind::Regex, Kind::MeCab];
     let mut item = 0u64;
     for (si, (nl, nr)) in shapes.iter().enumerate() {
+        if ctx.out_of_time() {
+            rep.notes.push(format!("stopped at shape {} (time budget)", si));
+            break;
+        }
         for kind in kinds.iter().chain([Kind::Simple].iter()) {
             let inhibit_item = item % 4 == 3;
             item += 1;
@@ -199,13 +227,16 @@ pub fn run(ctx: &Ctx, rep: &mut Report) {
                 for a in &vals {
                     for b in &vals {
                         rep.eval();
+                        // the questioned pair alone, or after a valid pair (which must then be inhibited as well)
+                        let second = (*a ^ *b) & 1 != 0;
+                        let pairs = if second { json!([[0, 0], [a, b]]) } else { json!([[a, b]]) };
                         let cfg_json = json!({"characterDefinitionFile": "char.def",
                             "oovProviderPlugin": [env::simple_oov(&pool[0], 0, 0, 20000)],
-                            "connectionCostPlugin": [{"class": format!("{}InhibitConnectionPlugin", CLS), "inhibitPair": [[a, b]]}]});
+                            "connectionCostPlugin": [{"class": format!("{}InhibitConnectionPlugin", CLS), "inhibitPair": pairs}]});
                         let cfg = env::config(&cfg_json, &sh.res);
                         let exp_ok = *a >= 0 && (*a as usize) < sh.m.nl && *b >= 0 && (*b as usize) < sh.m.nr;
                         let scen = || json!({"matrix": format!("{}x{}", nl, nr), "inhibitPair": [a, b], "config": cfg_json});
-                        if (*a - sh.m.nl as i64).abs() <= 1 || (*b - sh.m.nr as i64).abs() <= 1 {
+                        if a.saturating_sub(sh.m.nl as i64).saturating_abs() <= 1 || b.saturating_sub(sh.m.nr as i64).saturating_abs() <= 1 {
                             rep.nontrivial(fnv(format!("I{}x{}|{}|{}", nl, nr, a, b).as_bytes()));
                         }
                         match guard(|| env::load(&cfg, &sh.sys_bytes, &[], Place::Owned)) {
@@ -228,7 +259,7 @@ pub fn run(ctx: &Ctx, rep: &mut Report) {
                                     let mut bad = None;
                                     for x in 0..sh.m.nl {
                                         for y in 0..sh.m.nr {
-                                            let exp = if x as i64 == *a && y as i64 == *b { i16::MAX } else { sh.m.cost(x, y) };
+                                            let exp = if (x as i64 == *a && y as i64 == *b) || (second && x == 0 && y == 0) { i16::MAX } else { sh.m.cost(x, y) };
                                             if cm.cost(x as u16, y as u16) != exp {
                                                 bad = Some((x, y, cm.cost(x as u16, y as u16), exp));
                                             }
@@ -252,17 +283,32 @@ pub fn run(ctx: &Ctx, rep: &mut Report) {
             let mut cases: Vec<Case> = vec![];
             for l in &vals {
                 for r in &vals {
-                    cases.push(Case { kind: kind.clone(), left: *l, right: *r, cost: 5000, pos: pool[0].clone(), pos_exists: true, user_pos: None });
+                    cases.push(Case { kind: kind.clone(), left: *l, right: *r, cost: 5000, pos: pool[0].clone(), pos_exists: true, user_pos: None, slot: 0 });
                 }
             }
             for cost in [-32769i64, -32768, -1, 0, 32767, 32768, 65535, 100000] {
-                cases.push(Case { kind: kind.clone(), left: 0, right: 0, cost, pos: pool[0].clone(), pos_exists: true, user_pos: None });
+                cases.push(Case { kind: kind.clone(), left: 0, right: 0, cost, pos: pool[0].clone(), pos_exists: true, user_pos: None, slot: 0 });
+            }
+            // the same questions for a definition that is not the first one of its kind
+            {
+                let (n, k) = (sh.m.nl as i64, sh.m.nr as i64);
+                for l in [0, n - 1, n, k - 1, k, k + 1, -1, 65536] {
+                    for r in [0, n - 1, n, n + 1, k - 1, k, -1, 65536] {
+                        cases.push(Case { kind: kind.clone(), left: l, right: r, cost: 5000, pos: pool[0].clone(), pos_exists: true, user_pos: None, slot: 1 });
+                    }
+                }
+                for cost in [-32769i64, -32768, 32767, 32768, 70000] {
+                    cases.push(Case { kind: kind.clone(), left: 0, right: 0, cost, pos: pool[0].clone(), pos_exists: true, user_pos: None, slot: 1 });
+                }
+                for up in [None, Some("allow"), Some("forbid")] {
+                    cases.push(Case { kind: kind.clone(), left: 0, right: 0, cost: 100, pos: missing_pos.clone(), pos_exists: false, user_pos: up, slot: 1 });
+                }
             }
             for (exists, p) in [(true, pool[1].clone()), (false, missing_pos.clone())] {
                 for up in [None, Some("allow"), Some("forbid")] {
-                    cases.push(Case { kind: kind.clone(), left: 0, right: 0, cost: 100, pos: p.clone(), pos_exists: exists, user_pos: up });
+                    cases.push(Case { kind: kind.clone(), left: 0, right: 0, cost: 100, pos: p.clone(), pos_exists: exists, user_pos: up, slot: 0 });
                     // an invalid id stays invalid whatever the POS setting
-                    cases.push(Case { kind: kind.clone(), left: sh.m.nr as i64, right: 0, cost: 100, pos: p.clone(), pos_exists: exists, user_pos: up });
+                    cases.push(Case { kind: kind.clone(), left: sh.m.nr as i64, right: 0, cost: 100, pos: p.clone(), pos_exists: exists, user_pos: up, slot: 0 });
                 }
             }
             // POS with a wrong number of components never "exists" and can not be registered either
@@ -316,8 +362,8 @@ pub fn run(ctx: &Ctx, rep: &mut Report) {
                 let cfg = env::config(&cfg_json, &sh.res);
                 let exp_ok = valid(&c, &sh.m);
                 let scen = || json!({"matrix": format!("{}x{}", nl, nr), "case": format!("{:?}", c), "config": cfg_json});
-                let near = |v: i64, n: usize| (v - n as i64).abs() <= 1;
-                if near(c.left, sh.m.nl) || near(c.left, sh.m.nr) || near(c.right, sh.m.nl) || near(c.right, sh.m.nr) || !c.pos_exists || c.cost.abs() >= 32767 {
+                let near = |v: i64, n: usize| v.saturating_sub(n as i64).saturating_abs() <= 1;
+                if near(c.left, sh.m.nl) || near(c.left, sh.m.nr) || near(c.right, sh.m.nl) || near(c.right, sh.m.nr) || !c.pos_exists || c.cost.saturating_abs() >= 32767 {
                     rep.nontrivial(fnv(format!("{}x{}|{:?}", nl, nr, c).as_bytes()));
                 }
                 match guard(|| env::load(&cfg, &sh.sys_bytes, &[], Place::Owned)) {
@@ -345,6 +391,65 @@ pub fn run(ctx: &Ctx, rep: &mut Report) {
             }
             if rep.want_sample() {
                 rep.sample(json!({"matrix": format!("{}x{}", nl, nr), "kind": format!("{:?}", kind), "id_values": vals}));
+            }
+        }
+    }
+    // path-rewrite plugins name parts of speech as well: they must exist (these plugins have no userPOS switch)
+    if ctx.shard == 1 % ctx.nshards && ctx.only.is_none() {
+        rep.progress_idx(u64::MAX - 200, "C20 path-rewrite POS");
+        let mut rng = Rng::derive(ctx.seed, 0xC20E, 0);
+        if let Ok(sh) = build_shape(&mut rng, 3, 3) {
+            for (exists, p) in [(true, pool[0].clone()), (true, pool[2].clone()), (false, missing_pos.clone())] {
+                for slot in 0..2 {
+                    rep.eval();
+                    let mut path = vec![];
+                    if slot == 1 {
+                        path.push(json!({"class": format!("{}JoinNumericPlugin", CLS)}));
+                    }
+                    path.push(json!({"class": format!("{}JoinKatakanaOovPlugin", CLS), "oovPOS": p.to_vec(), "minLength": 2}));
+                    let cfg_json = json!({"characterDefinitionFile": "char.def", "oovProviderPlugin": [env::simple_oov(&pool[0], 0, 0, 20000)], "pathRewritePlugin": path});
+                    let cfg = env::config(&cfg_json, &sh.res);
+                    let scen = || json!({"matrix": "3x3", "config": cfg_json});
+                    rep.nontrivial(fnv(format!("kata|{}|{}", exists, slot).as_bytes()));
+                    match guard(|| env::load(&cfg, &sh.sys_bytes, &[], Place::Owned)) {
+                        Err(pn) => rep.violation("load_panic", &pn.site, &format!("JoinKatakanaOovPlugin with oovPOS {:?}: {}", p, pn.msg), "", scen()),
+                        Ok(Err(e)) => {
+                            rep.count("configurations_rejected", 1);
+                            if exists {
+                                rep.violation("valid_rejected", "from_cfg_storage", &format!("JoinKatakanaOovPlugin with the existing part of speech {:?} is rejected: {}", p, clip(&format!("{:?}", e), 160)), "", scen());
+                            }
+                        }
+                        Ok(Ok(d)) => {
+                            rep.count("configurations_accepted", 1);
+                            if !exists {
+                                rep.violation("invalid_accepted", "from_cfg_storage", &format!("JoinKatakanaOovPlugin with the part of speech {:?}, which does not exist in the dictionary, is accepted", p), "", scen());
+                            } else if let Err((k, site, msg)) = exercise(&d, &sh.keys, rep) {
+                                rep.violation(&k, &site, &msg, "", scen());
+                            }
+                        }
+                    }
+                }
+            }
+        }
+        // numeral joining needs the numeral part of speech: a dictionary without it cannot take the plugin
+        let m = Matrix::new(2, 2);
+        let mut lex = Lexicon::default();
+        lex.entries.push(Entry::simple("あ", 0, 0, 100, &pool[0]));
+        lex.entries.push(Entry::simple("い", 1, 1, 100, &pool[2]));
+        let res = ResDir::standard();
+        if let Ok(bytes) = env::compile_system(lex.to_csv(None).as_bytes(), m.to_text().as_bytes()) {
+            rep.eval();
+            let cfg_json = json!({"characterDefinitionFile": "char.def", "oovProviderPlugin": [env::simple_oov(&pool[0], 0, 0, 20000)],
+                "pathRewritePlugin": [{"class": format!("{}JoinNumericPlugin", CLS)}]});
+            let cfg = env::config(&cfg_json, &res);
+            rep.nontrivial(fnv(b"numeric-without-pos"));
+            match guard(|| env::load(&cfg, &bytes, &[], Place::Owned)) {
+                Err(pn) => rep.violation("load_panic", &pn.site, &format!("JoinNumericPlugin on a dictionary without the numeral part of speech: {}", pn.msg), "", json!({"config": cfg_json})),
+                Ok(Err(_)) => rep.count("configurations_rejected", 1),
+                Ok(Ok(_)) => {
+                    rep.count("configurations_accepted", 1);
+                    rep.violation("invalid_accepted", "from_cfg_storage", "JoinNumericPlugin is accepted although its part of speech (名詞,数詞,*,*,*,*) does not exist in the dictionary", "", json!({"config": cfg_json}));
+                }
             }
         }
     }
